@@ -601,3 +601,88 @@ def check_cells2(ctx, rule, name, body, result_sites, value_of, atom_map, domain
     ctx.ob(rule, name + "/table", not bad and ncells > 0, where,
            "abstract evaluation over %d cells of %s: %s" % (ncells, atoms, "all equal to reference table (values %s)" % sorted(map(str, seen_vals)) if not bad else "; ".join(x for x in bad if x)))
     return not bad and not unknown_all
+
+
+def local_uses(body, l):
+    """Number of reads of local `l` (as base of any operand / place) in statements and terminators."""
+    n = 0
+
+    def in_place(p):
+        nonlocal n
+        if p["l"] == l:
+            n += 1
+        for pr in p.get("pr", ()):
+            if pr["k"] == "index" and pr["l"] == l:
+                n += 1
+
+    def in_op(o):
+        if o and o.get("k") in ("copy", "move"):
+            in_place(o["p"])
+
+    def in_rv(r):
+        k = r["k"]
+        if k in ("use", "cast", "repeat"):
+            in_op(r["o"])
+        elif k in ("ref", "rawptr", "copyderef", "discr"):
+            in_place(r["p"])
+        elif k == "bin":
+            in_op(r["a"]); in_op(r["b"])
+        elif k == "un":
+            in_op(r["a"])
+        elif k == "agg":
+            for o in r["ops"]:
+                in_op(o)
+    for bi in body.live:
+        blk = body.blocks[bi]
+        for st in blk["stmts"]:
+            if st["k"] == "assign":
+                in_rv(st["r"])
+                if st["p"].get("pr") and st["p"]["l"] == l:
+                    n += 1
+        t = blk["term"]
+        if not t:
+            continue
+        if t["k"] in ("call", "tailcall"):
+            for a in t["args"]:
+                in_op(a)
+            if "f" in t:
+                in_op(t["f"])
+        elif t["k"] == "switch":
+            in_op(t["o"])
+        elif t["k"] == "assert":
+            in_op(t["c"])
+        elif t["k"] == "yield":
+            in_op(t["v"])
+    return n
+
+
+def value_leaves(body, e, depth=0, seen=None):
+    """Leaves of the value of expression e, following multi-def locals through all their definitions and
+    looking through BitOr/BitAnd/Not: returns a list of leaf expressions."""
+    seen = seen if seen is not None else set()
+    if depth > 12:
+        return [e]
+    t = e[0]
+    if t == "bin" and e[1] in ("BitOr", "BitAnd"):
+        return value_leaves(body, e[2], depth + 1, seen) + value_leaves(body, e[3], depth + 1, seen)
+    if t == "un" and e[1] == "Not":
+        return value_leaves(body, e[2], depth + 1, seen)
+    if t == "local":
+        l = e[1]
+        if l in seen:
+            return []
+        seen.add(l)
+        out = []
+        ds = body.defs.get(l, [])
+        if not ds:
+            return [e]
+        for d in ds:
+            ee = body.rvalue_expr(d[3]) if d[0] == "stmt" else body.call_expr(d[3], d[1])
+            out += value_leaves(body, ee, depth + 1, seen)
+        return out
+    if t == "call" and re.search(r"BitOr(Assign)?>?::bitor(_assign)?$", strip_generics(e[1])):
+        out = []
+        for a in e[2]:
+            out += value_leaves(body, a, depth + 1, seen)
+        return out
+    return [e]
